@@ -26,6 +26,8 @@ namespace
         bool stopper{false};
         long end_us{1'000'000};
         long late_us{0};                                 // the wall clock at run() is this far past start_time
+        bool stop_during_start{false};                   // the stopper may run as soon as the graph begins to start (not only after start)
+        bool starting{false};
         int cascade{0};                                  // the first `cascade` evaluations re-schedule the node one smallest step ahead
         // log
         std::vector<long> cycles;                        // evaluation time of every root cycle (relative us)
@@ -39,6 +41,8 @@ namespace
         bool started{false};                             // graph start finished (sender may be empty when pushes == 0)
         bool run_returned{false};
         bool stop_requested{false};
+        bool stop_from_node{false};
+        std::function<void()> stop_engine;
         std::uint64_t stop_returned_step{0};
         bool stopping{false};
         long accepted{0};
@@ -60,6 +64,7 @@ namespace
             switch (op.kind)
             {
                 case 'L': vs::burn_time(op.arg * 1000); break;
+                case 'S': W->stop_requested = true; W->stop_from_node = true; W->stop_engine(); W->stop_returned_step = vs::S().steps; break;
                 case 'r':
                 {
                     if (op.arg > 0 || (in_start && op.arg == 0)) W->expects.push_back({now + op.arg, false, now, "r" + std::to_string(op.arg) + "@" + std::to_string(now)});
@@ -120,16 +125,18 @@ namespace
 
     struct Observer final : LifecycleObserver
     {
+        void on_before_start_graph(const GraphView &) override { W->starting = true; }
         void on_after_start_graph(const GraphView &) override { W->started = true; vs::burn_time(1000); /* starting takes at least MIN_TD of wall time */ }
         void on_before_graph_evaluation(const GraphView &g) override
         {
             W->cycles.push_back(rel(g.evaluation_time()));
             W->cycle_step.push_back(vs::S().steps);
             W->cycle_wall.push_back(static_cast<long>(vs::now_ns() / 1000) - START_US);
-            // a cycle takes at least the smallest time step of wall time (without this a burst of pushes inside one virtual microsecond
-            // would legitimately push evaluation time ahead of a clock that never moves: evaluation_time >= previous + MIN_TD)
-            vs::burn_time(1000);
         }
+        // a cycle takes at least the smallest time step of wall time (without this a burst of pushes inside one virtual microsecond
+        // would legitimately push evaluation time ahead of a clock that never moves: evaluation_time >= previous + MIN_TD). The time
+        // passes at the END of the cycle, so that nodes can observe a wall clock exactly equal to their evaluation time.
+        void on_after_graph_evaluation(const GraphView &) override { vs::burn_time(1000); }
         void on_before_stop_graph(const GraphView &) override { W->stopping = true; }
     };
 
@@ -156,6 +163,7 @@ namespace
         eb.graph_builder(std::move(gb)).mode(GraphExecutorMode::RealTime).start_time(at(0)).end_time(at(world.end_us)).max_wait_slice(TimeDelta{400'000}).add_lifecycle_observer(&observer);
         auto *executor = new GraphExecutorValue(eb.make_executor());
 
+        world.stop_engine = [executor] { executor->view().request_stop(); };
         std::vector<std::function<void()>> bodies;
         bodies.push_back([&] {
             try { executor->view().run(); }
@@ -174,7 +182,7 @@ namespace
             });
         if (world.stopper)
             bodies.push_back([&] {
-                vs::gate([&] { return world.started || world.run_returned; });
+                vs::gate([&] { return (world.stop_during_start ? world.starting : world.started) || world.run_returned; });
                 world.stop_requested = true;
                 executor->view().request_stop();
                 world.stop_returned_step = vs::S().steps;
@@ -254,7 +262,9 @@ namespace
         {
             int after = 0;
             for (auto st : world.cycle_step) if (st > world.stop_returned_step) ++after;
-            if (after > 1) { r.violation = std::to_string(after) + " cycles began after request_stop() had returned"; return r; }
+            // requested by another thread: the cycle in progress may still be followed by the one whose stop check had already passed;
+            // requested from inside a node (start hook or evaluation): the run ends after that cycle
+            if (after > (world.stop_from_node ? 0 : 1)) { r.violation = std::to_string(after) + " cycles began after request_stop() had returned"; return r; }
         }
         return r;
     }
@@ -275,12 +285,13 @@ namespace
             else if (k == "end") w.end_us = std::stol(v);
             else if (k == "late") w.late_us = std::stol(v);
             else if (k == "cas") w.cascade = std::stoi(v);
+            else if (k == "sds") w.stop_during_start = v == "1";
             else if (k == "tm")
             {
                 for (auto &part : vs::split(v, '|'))
                 {
                     std::vector<Op> ops;
-                    for (auto &t : vs::split(part, ',')) if (!t.empty()) ops.push_back({t[0], std::stol(t.substr(1))});
+                    for (auto &t : vs::split(part, ',')) if (!t.empty()) ops.push_back({t[0], t.size() > 1 ? std::stol(t.substr(1)) : 0L});
                     w.scripts.push_back(ops);
                 }
             }
@@ -315,8 +326,8 @@ void verif_enumerate(verif::Ctx &ctx)
     const bool th = ctx.thorough();
     ctx.max_samples = 400;
     // timer programs: every list of 1..2 start operations from a small menu, optionally followed by one first-evaluation script
-    const std::vector<std::string> start_menu = {"r0", "r100", "a300", "w200", "w0", "w-50", "r100,w100", "r100,a300", "w200,w-50", "a300,w200", "r100,r300"};
-    const std::vector<std::string> eval_menu = {"", "r50", "w-10", "w80", "L500,r50", "L500,w20", "L2000000", "L2000000,r50", "r1,L300"};
+    const std::vector<std::string> start_menu = {"r0", "r100", "a300", "w200", "w0", "w-50", "r100,w100", "r100,a300", "w200,w-50", "a300,w200", "r100,r300", "r100,S"};
+    const std::vector<std::string> eval_menu = {"", "r50", "w-10", "w0", "w80", "L500,r50", "L500,w20", "L2000000", "L2000000,r50", "r1,L300", "r50,S"};
     std::vector<std::string> configs;
     for (auto &sm : start_menu)
         for (auto &em : eval_menu)
@@ -332,7 +343,8 @@ void verif_enumerate(verif::Ctx &ctx)
                             }
                             const int weight = push + stop;
                             const int bound = th ? (weight <= 1 ? 4 : weight == 2 ? 3 : 2) : (weight == 0 ? 3 : weight == 1 ? 2 : 1);
-                            configs.push_back("tm=" + sm + (em.empty() ? "" : "|" + em) + ";push=" + std::to_string(push) + ";stop=" + std::to_string(stop) + ";end=" + std::to_string(end) + ";late=" + std::to_string(late) + ";bound=" + std::to_string(bound));
+                            for (int sds = 0; sds <= stop; ++sds)   // with a stopper thread: it may also fire while the graph is still starting
+                                configs.push_back("tm=" + sm + (em.empty() ? "" : "|" + em) + ";push=" + std::to_string(push) + ";stop=" + std::to_string(stop) + ";sds=" + std::to_string(sds) + ";end=" + std::to_string(end) + ";late=" + std::to_string(late) + ";bound=" + std::to_string(bound));
                         }
     // immediate cascades (the drain cut-off past end_time applies only while the run keeps re-scheduling itself every smallest step):
     // after N >= 1024 one-step cycles the last of which crosses end_time, a wake-up 5 ms later is still due before end_time and must be delivered
